@@ -363,17 +363,28 @@ func (r *Runner) Run() {
 	for i := 0; i < nRand; i++ {
 		progs = append(progs, Prog{"random:" + itoa(i), Random(rr)})
 	}
-	// mutation bases: small corpus programs and cells
+	// mutation bases: small corpus programs and cells that are accepted and
+	// satisfy the property (mutating an input that already fails mostly yields
+	// variants of the same failure)
 	var bases []string
+	addBase := func(src string) {
+		if o := r.eval(src); o.Accepted && o.Class == "" {
+			bases = append(bases, src)
+		}
+	}
 	for _, p := range corpus {
 		if len(p.Src) < 3000 {
-			bases = append(bases, p.Src)
+			addBase(p.Src)
 		}
 	}
 	for _, cl := range cells {
 		if strings.HasPrefix(cl.Name, "cell=") {
-			bases = append(bases, cl.Src)
+			addBase(cl.Src)
 		}
+	}
+	c.Set("mutation_bases", len(bases))
+	if len(bases) == 0 {
+		core.Infra("no mutation bases")
 	}
 	mr := c.Rand("mutants")
 	for i := 0; i < nMut; i++ {
